@@ -474,6 +474,7 @@ type Sched struct {
 	PCTDepth int     `json:"pct_depth,omitempty"`
 	PCTSpan  int     `json:"pct_span,omitempty"`
 	TimeJump float64 `json:"time_jump,omitempty"`
+	TimeJumpMaxUs int `json:"time_jump_max_us,omitempty"`
 	SiteProb float64 `json:"site_prob,omitempty"`
 	MaxSteps int     `json:"max_steps"`
 	PoolMode int     `json:"pool_mode"`
@@ -499,7 +500,7 @@ func GenSched(r *simrt.Rand, maxSteps int) Sched {
 // Config converts to the scheduler's configuration.
 func (s Sched) Config(trace bool) simrt.Config {
 	return simrt.Config{Seed: s.Seed, Strategy: simrt.Strategy(s.Strategy), Stick: s.Stick, PCTDepth: s.PCTDepth,
-		PCTSpan: s.PCTSpan, TimeJump: s.TimeJump, SiteProb: s.SiteProb, MaxSteps: s.MaxSteps, Trace: trace}
+		PCTSpan: s.PCTSpan, TimeJump: s.TimeJump, TimeJumpMax: time.Duration(s.TimeJumpMaxUs) * time.Microsecond, SiteProb: s.SiteProb, MaxSteps: s.MaxSteps, Trace: trace}
 }
 
 // ShrinkScheds proposes simpler schedules.
